@@ -1220,6 +1220,92 @@ func TestC17FreeWide(t *testing.T) {
 		})
 }
 
+// TestC05FreeMix: mutators of every kind run in parallel on one container; in the end the
+// context is cleared and nothing may be left running with a live context.
+func TestC05FreeMix(t *testing.T) {
+	drive(t, "C05", "one StateRoutineContainer; 2..10 goroutines x 1..12 ops {RestartRoutine, SetContext(one of three contexts, restart or not), ClearContext, SetState(fresh|same|empty), SetStateRoutine(function|nil)} with real parallelism; every managed function registers its context and waits for its cancellation; then the main goroutine calls ClearContext; oracle: once that call has returned every instance that ever entered its function has a cancelled context, and so has every instance that enters later; non-trivial iff >= 2 goroutines; distinct by program", 12,
+		func(cs Case, v *ev.Verdict) {
+			f := &failer{v: v}
+			var mu sync.Mutex
+			var ctxs []context.Context
+			fn := func(ctx context.Context, st int) error {
+				mu.Lock()
+				ctxs = append(ctxs, ctx)
+				mu.Unlock()
+				<-ctx.Done()
+				return ctx.Err()
+			}
+			sc := routine.NewStateRoutineContainer[int](func(a, b int) bool { return a == b })
+			var roots [3]context.Context
+			var cancels [3]context.CancelFunc
+			for i := range roots {
+				roots[i], cancels[i] = context.WithCancel(context.Background())
+			}
+			defer func() {
+				for _, c := range cancels {
+					c()
+				}
+			}()
+			sc.SetContext(roots[0], false)
+			sc.SetStateRoutine(fn)
+			sc.SetState(1)
+			var next atomic.Int32
+			next.Store(1)
+			parallel(len(cs.G), func(g int) {
+				for _, op := range cs.G[g] {
+					switch op % 7 {
+					case 0, 1:
+						sc.RestartRoutine()
+					case 2:
+						sc.SetContext(roots[op%3], op%2 == 0)
+					case 3:
+						sc.ClearContext()
+					case 4:
+						switch (op / 7) % 3 {
+						case 0:
+							sc.SetState(int(next.Add(1)))
+						case 1:
+							sc.SetState(int(next.Load()))
+						default:
+							sc.SetState(0)
+						}
+					case 5:
+						if op%2 == 0 {
+							sc.SetStateRoutine(fn)
+						} else {
+							sc.SetStateRoutine(nil)
+						}
+					default:
+						sc.SetContext(roots[op%3], true)
+					}
+				}
+			})
+			sc.ClearContext()
+			live := func() int {
+				mu.Lock()
+				defer mu.Unlock()
+				n := 0
+				for _, c := range ctxs {
+					if c.Err() == nil {
+						n++
+					}
+				}
+				return n
+			}
+			if n := live(); n > 0 {
+				f.add("C05", "routine:live-instance-without-context", "ClearContext has returned and %d instance(s) of the managed function still have a live context", n)
+				return
+			}
+			// late starters (goroutines created before the call) enter with a cancelled context
+			for i := 0; i < 200; i++ {
+				runtime.Gosched()
+			}
+			if n := live(); n > 0 {
+				f.add("C05", "routine:live-instance-without-context", "%d instance(s) entered the managed function with a live context after ClearContext had returned", n)
+			}
+		})
+}
+
 // ---- C04: never two instances at once, also when the mutators run in parallel ----
 
 func TestC04Free(t *testing.T) {
@@ -1395,7 +1481,7 @@ func (c *ownCtx) Err() error {
 // ---- C03: no missed broadcast under real contention (incl. the asynchronous slow path) ----
 
 func TestC03Free(t *testing.T) {
-	drive(t, "C03", "2..10 goroutines x 1..20 ops on one Broadcast guarding a counter: increments (each with a broadcast) through HoldLock / TryHoldLock (retried) / HoldLockMaybeAsync (asynchronous slow path under contention), read-only sections through the same three entry points that take the wait channel and remember it with the counter value, and Wait(counter >= k) with k <= the total number of increments; oracle: every Wait returns nil having seen its predicate true, the final counter equals the number of increments, and at the start of every critical section each remembered channel is closed iff the counter has moved since it was taken; non-trivial iff >= 2 goroutines; distinct by program", 20,
+	drive(t, "C03", "2..10 goroutines x 1..20 ops on one Broadcast guarding a counter: increments (each with a broadcast) through HoldLock / TryHoldLock (retried) / HoldLockMaybeAsync (asynchronous slow path under contention), read-only sections through the same three entry points that take the wait channel and remember it with the counter value, and Wait(counter >= k) with k <= the total number of increments (some with a context cancelled concurrently: their predicate is never evaluated after they returned); oracle: every other Wait returns nil having seen its predicate true, the final counter equals the number of increments, and at the start of every critical section each remembered channel is closed iff the counter has moved since it was taken; non-trivial iff >= 2 goroutines; distinct by program", 20,
 		func(cs Case, v *ev.Verdict) {
 			f := &failer{v: v}
 			var b broadcast.Broadcast
@@ -1478,6 +1564,37 @@ func TestC03Free(t *testing.T) {
 						}
 						// waiters run beside the incrementing goroutines (which never block), so every wait terminates
 						wwg.Add(1)
+						if op%16 == 11 {
+							// a waiter whose context is cancelled while the lock is busy: whatever it
+							// returns, its predicate is not evaluated once it has returned
+							go func() {
+								defer wwg.Done()
+								ctx, cancel := context.WithCancel(context.Background())
+								go cancel()
+								var returned atomic.Bool
+								sawTrue := false
+								err := b.Wait(ctx, func(_ func(), _ func() <-chan struct{}) (bool, error) {
+									if returned.Load() {
+										f.add("C03", "broadcast:predicate-after-return", "the predicate of a Wait was evaluated after that Wait had returned")
+									}
+									sawTrue = counter >= k
+									return sawTrue, nil
+								})
+								returned.Store(true)
+								cancel()
+								if err == nil && !sawTrue {
+									f.add("C03", "broadcast:nil-without-true", "Wait(counter >= %d) returned nil although its predicate never returned true", k)
+								} else if err != nil && err != context.Canceled {
+									f.add("C03", "broadcast:error-changed", "a cancelled Wait returned %v", err)
+								}
+								// (a predicate evaluation that is still pending somewhere shows up while the
+								// other goroutines keep taking the lock)
+								for i := 0; i < 50; i++ {
+									runtime.Gosched()
+								}
+							}()
+							continue
+						}
 						go func() {
 							defer wwg.Done()
 							sawTrue := false
